@@ -383,10 +383,14 @@ type ReplaceMap struct {
 }
 
 func (m ReplaceMap) Get(key string) (Value, bool) {
+	o, ok := m.orig.Get(key)
+	if !ok {
+		return nil, false
+	}
 	if e, ok := m.rep.Get(key); ok {
 		return e, true
 	}
-	return m.orig.Get(key)
+	return o, true
 }
 
 func (m ReplaceMap) Iter(yield func(key string, v Value) bool) {
